@@ -15,7 +15,8 @@
      is below 576460752303423500 or still fits 64 bits; further integer digits
      bump the exponent, further fraction digits are DROPPED), and
      json_value_to_decimal converts it to Decimal through its Display text
-     ([number_text]: plain digits, a fixed-point text for exponents -17..-1,
+     ([number_text]: plain digits, a fixed-point text for exponents -17..-1
+     (and for lower ones when the mantissa has exactly |exponent| + 1 digits),
      trailing zeros while digits + exponent <= 20, otherwise `e` notation,
      which Decimal::from_str rejects) -- not through f64.
 
@@ -149,7 +150,11 @@ Definition number_text (neg : bool) (n e : Z) : option bytes :=
   if n =? 0 then Some (sign ++ [digit 0])
   else if e =? 0 then Some (sign ++ digits_of n)
   else if e <? 0 then
-    (if - e <? 18 then Some (sign ++ render_dec (n, Z.to_nat (- e))) else None)
+    (* fixed point for exponents -17..-1; from -18 on the digits are printed as
+       d.ddd with an `e` part, which is omitted when it is e0: exactly when the
+       mantissa has |e| + 1 digits, and then the text is the fixed-point one *)
+    (if (- e <? 18) || ((10 <=? n) && (Z.of_nat (length (digits_of n)) - 1 =? - e))
+     then Some (sign ++ render_dec (n, Z.to_nat (- e))) else None)
   else if Z.of_nat (length (digits_of n)) + e <=? 20
        then Some (sign ++ digits_of n ++ repeat (digit 0) (Z.to_nat e))
        else None.
